@@ -5,7 +5,9 @@
     and after both sides went out of scope  created == dropped  (count and value sum);
 (B) the same for wrapper programs (C02's family) over Tok;
 (C) profile programs: every initial expression, block capture, callback, second action and handler runs exactly once
-    when control flow reaches it and not at all otherwise (non-try kinds: always; try kinds: per failing step).
+    when control flow reaches it and not at all otherwise (non-try kinds: always; try kinds: per failing step);
+(D) every operator site with a side-effecting block operand (C11's site table incl. `<|`, `<=`, `!>` and both fold
+    operands): the block is evaluated exactly once.
 A macro that needed Clone / Copy for a payload would not build (build-stage violation).
 """
 from .driver import Program, pack
@@ -158,6 +160,26 @@ def count_programs(tier, seed, start):
     return ps, i
 
 
+def block_once_programs(tier, seed, start):
+    """every operator site whose operand is a side-effecting block (incl. `<|`, `<=`, `!>`, both fold operands):
+    the block is evaluated exactly once per macro evaluation (C11's programs, all sites, step 0, no wrapper)"""
+    from . import gen_c11
+    ps = []
+    i = start
+    for si, site in enumerate(gen_c11.SITES):
+        for mi, macro in enumerate(("join", "join_spawn")):
+            i += 1
+            if site[0] == "?&!>" and macro != "join":
+                continue
+            if tier == "quick" and (si + mi) % 2:
+                continue
+            p = gen_c11.make("p%04d" % i, macro, site, 0, 0, i, seed, with_pre=bool(si % 2))
+            p.body = p.body.replace("C11[", "C10[")
+            p.group = "block-once/" + macro
+            ps.append(p)
+    return ps, i
+
+
 def programs(tier, seed):
     ps = []
     a, i = op_programs(tier, seed, 0)
@@ -165,6 +187,8 @@ def programs(tier, seed):
     a, i = wrapper_programs(tier, seed, i)
     ps += a
     a, i = count_programs(tier, seed, i)
+    ps += a
+    a, i = block_once_programs(tier, seed, i)
     ps += a
     return ps
 
